@@ -780,7 +780,7 @@ def _corpus() -> list:
 
 
 def cases(tier: str) -> list:
-    n, nall = (20000, 300) if tier == "quick" else (200000, 2000)
+    n, nall = (30000, 300) if tier == "quick" else (200000, 2000)
     return _corpus() + ["all:%d" % i for i in range(nall)] + list(range(n))
 
 
